@@ -375,8 +375,9 @@ def h_xsd(ch: Chooser, kind: str):
     g = run_generation(sources, None, opts, conv)
     try:
         bad = check_generated(g, case, f"{kind}/{slot_kind(desc)}")
-        if bad and oname.startswith("class_name=") and "Xml Text does not support typing `list[pkgx.main." in str(bad.get("detail")) and mode_of(desc) in ("pair", "triple"):
-            # class names in a field-like case: the inner class of an anonymous type gets the very name of a sibling field and replaces it in the class body
+        if bad and oname.startswith(("class_name=", "field_name=")) and "Xml Text does not support typing `list[pkgx.main." in str(bad.get("detail")) and mode_of(desc) in ("pair", "triple"):
+            # class names in a field-like case (or field names in a class-like case): the inner class of an anonymous type gets the very name of a
+            # sibling field and replaces it in the class body
             bad["bucket"] = "KF/inner-class-named-like-a-sibling-field-under-non-pascal-class-names"
         if bad and kind == "xsd-wrapper" and oname == "wrapper" and bad["bucket"].endswith("/duplicate-field-name") and mode_of(desc) in ("pair", "triple"):
             # the wrapped child, its same-named sibling and a third field whose name collides with both after normalisation
@@ -405,6 +406,22 @@ def is_dtd_name(v: str) -> bool:
     return bool(re.fullmatch(r"[A-Za-z_:À-˿Ͱ-ͽ][\w.\-:·]*", v)) and "·" not in v[:1]
 
 
+def _one_local_name_in_two_namespaces(docs) -> bool:
+    seen: dict = {}
+    for d in docs:
+        tree = I.canonical(d)
+
+        def walk(t):
+            q = t[0]
+            ns, local = (q[1:].split("}", 1) if q.startswith("{") else (None, q))
+            seen.setdefault(local, set()).add(ns)
+            for k in t[2]:
+                if not isinstance(k, str):
+                    walk(k)
+        walk(tree)
+    return any(len(v) > 1 for v in seen.values())
+
+
 @harness("c07.samples.xml")
 def h_samples_xml(ch: Chooser, max_elems: int):
     """Arbitrary (irregular) well-formed XML samples: G-tree documents, one or two per source set."""
@@ -423,7 +440,7 @@ def h_samples_xml(ch: Chooser, max_elems: int):
         bad = check_generated(g, case, "xml-samples")
         if bad and "unsupported operand type(s) for |: 'type' and 'str'" in str(bad.get("detail")):
             bad["bucket"] = "KF/sample-with-same-named-nested-elements-renders-a-union-with-a-quoted-forward-reference"
-        elif bad and bad["bucket"] == "xml-samples/duplicate-class-name" and len({d.count("xmlns") > 0 for d in sources.values()}) >= 1 and any('xmlns=""' in d for d in sources.values()):
+        elif bad and bad["bucket"] == "xml-samples/duplicate-class-name" and _one_local_name_in_two_namespaces(sources.values()):
             bad["bucket"] = "KF/samples-with-one-local-name-in-and-out-of-a-namespace-yield-one-class-twice"
         if bad:
             return bad
